@@ -62,6 +62,7 @@ var (
 	all     []*Task
 	root    *Task
 	numCPU  int
+	goMaxProcs int
 	entropy io.Reader
 	tickOn  int32
 	quantum int64
@@ -110,6 +111,7 @@ func Begin(ncpu int, ent io.Reader) {
 	all = nil
 	root = &Task{ID: "r", Path: []int{}}
 	numCPU = ncpu
+	goMaxProcs = 0
 	entropy = ent
 	anon = 0
 	atomic.AddInt64(&gen, 1)
@@ -367,6 +369,30 @@ func NumCPU() int {
 		}
 	}
 	return runtime.NumCPU()
+}
+
+// GoMaxProcs replaces runtime.GOMAXPROCS(0). It may be lower than NumCPU (a
+// container CPU quota, a GOMAXPROCS environment variable), never higher.
+func GoMaxProcs() int {
+	if atomic.LoadInt32(&on) == 1 {
+		mu.Lock()
+		n, g := numCPU, goMaxProcs
+		mu.Unlock()
+		if n > 0 {
+			if g > 0 && g < n {
+				return g
+			}
+			return n
+		}
+	}
+	return runtime.GOMAXPROCS(0)
+}
+
+// SetGoMaxProcs sets what GoMaxProcs reports during the current run (0: the same as NumCPU).
+func SetGoMaxProcs(n int) {
+	mu.Lock()
+	goMaxProcs = n
+	mu.Unlock()
 }
 
 // Entropy replaces crypto/rand.Reader.
